@@ -62,8 +62,10 @@ def to_program(pid, beh):
             cur.append({"op": "bin", "name": a, "a": {"r": objreg[h["i"] - 1]}, "b": {"r": objreg[h["j"] - 1]}}); objreg.append(reg); reg += 1
         elif a in ("addc", "mulc"):
             cur.append({"op": "bin", "name": a[:3], "a": {"r": objreg[h["i"] - 1]}, "b": {"c": h["v"]}}); objreg.append(reg); reg += 1
-        elif a in ("pows", "lshifts"):
-            cur.append({"op": "bin", "name": {"pows": "pow", "lshifts": "lshift"}[a], "a": {"r": objreg[h["i"] - 1]}, "b": {"r": objreg[h["j"] - 1]}}); objreg.append(reg); reg += 1
+        elif a in ("andc", "orc", "xorc"):
+            cur.append({"op": "bin", "name": a[:-1], "a": {"r": objreg[h["i"] - 1]}, "b": {"c": h["v"]}}); objreg.append(reg); reg += 1
+        elif a in ("pows", "lshifts", "rshifts"):
+            cur.append({"op": "bin", "name": {"pows": "pow", "lshifts": "lshift", "rshifts": "rshift"}[a], "a": {"r": objreg[h["i"] - 1]}, "b": {"r": objreg[h["j"] - 1]}}); objreg.append(reg); reg += 1
         elif a in ("lshiftc", "rshiftc", "powc"):
             cur.append({"op": "bin", "name": {"lshiftc": "lshift", "rshiftc": "rshift", "powc": "pow"}[a], "a": {"r": objreg[h["i"] - 1]}, "b": {"c": h["v"]}})
             if not (a == "rshiftc" and h["v"] >= BLV):      # x >> c with c >= bitlength is the plain integer 0, not an object
@@ -117,7 +119,7 @@ def impl_of(tr, P, maxw):
 
 
 def run_conformance(run, tier):
-    P, BL, maxw = 67, BLV, 30
+    P, BL, maxw = 67, BLV, 44
     behs = gen(run, P, BL, maxw, 3 if tier == "quick" else 4, "ValsQuick" if tier == "quick" else "ValsThorough")
     if run.violations or not behs:
         return
